@@ -53,6 +53,7 @@ class SpecFail(BaseException):
 
 
 CUR = None  # the active Explorer (one per process)
+PARANOID = bool(__import__('os').environ.get('SYMX_PARANOID'))
 EQ_HOOK = None   # optional provenance-based equality (installed by symx.seq)
 
 
@@ -1117,6 +1118,8 @@ class Explorer:
         self.decisions = []
         self.decided = {}
         self.pc = []
+        self._model = None
+        self._model_pc_len = 0
         self.model = None if prefix else model
         self.inputs = []       # (name, kind, payload)
         self.fresh = 0
@@ -1168,7 +1171,32 @@ class Explorer:
         self.stats.queries += 1
         return r
 
+    @property
+    def model(self):
+        return self._model
+
+    @model.setter
+    def model(self, m):
+        self._model = m
+        self._model_pc_len = len(self.pc) if m is not None else 0
+
     def _ensure_model(self):
+        if self._model is not None and self._model_pc_len < len(self.pc):
+            # conjuncts were appended since the model was obtained: keep it only if it satisfies them too
+            ok = True
+            for cj in self.pc[self._model_pc_len:]:
+                try:
+                    v = self._model.eval(cj, model_completion=True)
+                    if not (z3.is_true(v) or z3.is_true(z3.simplify(v))):
+                        ok = False
+                        break
+                except Exception:
+                    ok = False
+                    break
+            if ok:
+                self._model_pc_len = len(self.pc)
+            else:
+                self._model = None
         if self.model is None:
             r = self._solve()
             if r == z3.sat:
@@ -1221,10 +1249,25 @@ class Explorer:
             self.decided[eid] = val
             if i == len(self.prefix) - 1:
                 self.model = self.prefix_model
+                self._model_pc_len = 0      # validate a resumed model against the whole re-built path condition
             return val
         if i >= self.max_decisions:
             raise UnwindExceeded("more than %d decisions on one path" % self.max_decisions)
         val = self._holds_in_model(e)
+        if PARANOID:
+            chk = z3.Solver()
+            chk.add(*self.pc)
+            chk.add(e if val else z3.Not(e))
+            if chk.check() == z3.unsat:
+                import traceback
+                m = self.model
+                for j, cj in enumerate(self.pc):
+                    vj = m.eval(cj, model_completion=True)
+                    if not z3.is_true(z3.simplify(vj)):
+                        print("PC conjunct %d/%d violated by the cached model: %s" % (j, len(self.pc), str(cj)[:400]))
+                        break
+                traceback.print_stack(limit=12)
+                raise EngineError("stale model: chosen side infeasible at decision %d" % i)
         other = z3.Not(e) if val else e
         r = self._solve(other)
         if r == z3.sat:
@@ -1249,6 +1292,7 @@ class Explorer:
                 raise EngineError("non-deterministic re-execution (choice expected)")
             if i == len(self.prefix) - 1:
                 self.model = self.prefix_model
+                self._model_pc_len = 0      # validate a resumed model against the whole re-built path condition
         else:
             idx = 0
             for j in range(len(options) - 1, 0, -1):
@@ -1277,6 +1321,7 @@ class Explorer:
             self.pc.append(x.e == bv(v, w))
             if i == len(self.prefix) - 1:
                 self.model = self.prefix_model
+                self._model_pc_len = 0      # validate a resumed model against the whole re-built path condition
             return v
         m = self._ensure_model()
         v0 = m.eval(x.e, model_completion=True).as_signed_long()
